@@ -223,6 +223,9 @@ def run_case(case):
                 rep['result_shape'] = list(np.asarray(res).shape)
             if love is not None:
                 rep['love_shape'] = list(np.asarray(love).shape)
+                la = np.asarray(love)
+                # k is defined for every surface type (h and l are NaN by design on a liquid surface)
+                rep['k_finite'] = bool(la.ndim == 2 and la.shape[1] == 3 and np.all(np.isfinite(la[:, 0])))
         except BaseException as e:  # noqa
             rep['inspect_exc'] = '%s: %s' % (type(e).__name__, e)
         if rep.get('success') is False and not kw['raise_on_fail']:
